@@ -516,6 +516,13 @@ pub fn run(id: &str, tier: Tier) -> i32 {
         let what = known.open.get(&(id.to_string(), class.clone())).cloned().unwrap_or_default();
         println!("KNOWN-FINDING: property={id} class={class} {what} (n={n} this run, e.g. replay={})", p.display());
     }
+    let mut class_counts: BTreeMap<String, u64> = BTreeMap::new();
+    for v in &violations {
+        *class_counts.entry(v.class.clone()).or_insert(0) += 1;
+    }
+    if !class_counts.is_empty() {
+        println!("[{id}] violation records by class: {:?}", class_counts);
+    }
     let n_real_total = violations.iter().filter(|v| !known.open.contains_key(&(v.property.clone(), v.class.clone()))).count();
     for (v, p) in &real {
         println!("VIOLATION property={id} replay={}", p.display());
